@@ -17,7 +17,8 @@ RULE = (
     "chains, negative numbers, insertion-code runs, complete nucleotides and hetero groups, no two atoms closer than "
     "0.6 A), in which the P atom of drawn residues is re-positioned at 1.6 / 2.3 / 2.399 / 2.401 / 2.5 / 3.0 A from the "
     "previous residue's O3' so that connected and broken links occur on both sides of the 2.4 A threshold; each table "
-    "is serialised by the harness as PDB and as mmCIF and read four ways (residue-level reader and table-level "
+    "is serialised by the harness as PDB and as mmCIF (plus, when drawn, an mmCIF dialect: optional items left out, item order "
+    "permuted, author-only or label-only residue identity; nucleotides also under modified / force-field names) and read four ways (residue-level reader and table-level "
     "reader x two formats). Plus single-conformer corpus files read both ways. Oracle (differential, keyed by chain, "
     "number, insertion code): same residue keys and names, same atom-name multisets, coordinates equal to 1e-3 "
     "among all readings and the generated table; is_connected of both models == harness's O3'-P < 2.4 A (undecided "
@@ -176,9 +177,37 @@ def oracle_table(case):
     for k in want:
         want[k]["atoms"].sort()
     paths = {"pdb": write_tmp(atomtab.emit_pdb(atoms), "pdb"), "cif": write_tmp(atomtab.emit_cif(atoms, case.get("null", "?")), "cif")}
+    wants = {"pdb": want, "cif": want}
+    dia = case.get("dialect")
+    if dia:
+        # an mmCIF dialect of the same atoms: optional items left out, item order permuted, residues identified by
+        # author items only or by label items only (then the number is label_seq_id and there is no insertion code)
+        drop = set(dia.get("drop", []))
+        if any(a["icode"] for a in atoms):
+            drop.discard("pdbx_PDB_ins_code")
+        view = atoms
+        if dia.get("identity") == "label" and not any(a["icode"] for a in atoms):
+            drop |= {"auth_seq_id", "auth_asym_id", "auth_comp_id", "pdbx_PDB_ins_code"}
+            view = atomtab.label_view(atoms)
+        elif dia.get("identity") == "auth":
+            drop |= {"label_seq_id", "label_asym_id", "label_comp_id"}
+            drop.discard("auth_comp_id")
+        wd = {}
+        for a in view:
+            key = (a["chain"], a["resseq"], a["icode"] or None)
+            wd.setdefault(key, {"name": a["resname"], "atoms": []})["atoms"].append((a["name"], a["x"], a["y"], a["z"]))
+        for k in wd:
+            wd[k]["atoms"].sort()
+        os.makedirs(WORK_DIR, exist_ok=True)
+        pd_ = os.path.join(WORK_DIR, f"c15_{os.getpid()}_dialect.cif")
+        with open(pd_, "w") as f:
+            f.write(atomtab.emit_cif(atoms, case.get("null", "?"), dialect={"drop": sorted(drop), "order": dia.get("order")}))
+        paths["cif-dialect"] = pd_
+        wants["cif-dialect"] = wd
     try:
         r1, r2, chis = {}, {}, {}
         for ext, p in paths.items():
+            want = wants[ext]
             v1, order, n1 = read_v1(p)
             v2, st2, n2 = read_v2(p)
             r1[ext], r2[ext] = v1, v2
@@ -272,6 +301,8 @@ def classify(case):
         labs.append("broken-link")
     if info["chi"]:
         labs.append("chi-compared")
+    if case.get("dialect"):
+        labs.append("cif-dialect-" + case["dialect"].get("identity", "both"))
     nt = bool(set(labs) & {"chains>=2", "icode", "negative-number"}) and info["connected"] >= 1 and info["broken"] >= 1
     return nt, labs
 
@@ -305,7 +336,13 @@ def st_cases():
             p[0][axis] = round(o3[0][axis] + d, 3)
             if not atomtab.spread(atoms, 0.6):
                 p[0]["x"], p[0]["y"], p[0]["z"] = old
-        return {"atoms": atoms, "null": draw(st.sampled_from(["?", "."]))}
+        dialect = draw(st.one_of(st.none(), st.fixed_dictionaries({
+            "drop": st.lists(st.sampled_from(["group_PDB", "id", "type_symbol", "label_alt_id", "label_entity_id", "occupancy", "B_iso_or_equiv",
+                                              "pdbx_formal_charge", "auth_comp_id", "auth_atom_id", "pdbx_PDB_ins_code", "pdbx_PDB_model_num"]),
+                             max_size=5, unique=True),
+            "order": st.one_of(st.none(), st.integers(0, 10 ** 6)),
+            "identity": st.sampled_from(["both", "both", "auth", "label"])})))
+        return {"atoms": atoms, "null": draw(st.sampled_from(["?", "."])), "dialect": dialect}
 
     return build()
 
